@@ -297,6 +297,26 @@ func openPStore(backend string, clk *pClock, deliveredRetention bool) (*pStoreHa
 	return h, nil
 }
 
+// reopen closes the SQLite store and opens the same file again (a process restart); other backends stay.
+func (h *pStoreHandle) reopen(clk *pClock, deliveredRetention bool) error {
+	if h.sql == nil {
+		return nil
+	}
+	if err := h.sql.Close(); err != nil {
+		return err
+	}
+	opts := []queue.SQLiteOption{queue.WithSQLiteNowFunc(clk.Now), queue.WithSQLiteCheckpointInterval(0)}
+	if deliveredRetention {
+		opts = append(opts, queue.WithSQLiteDeliveredRetention(24*time.Hour), queue.WithSQLiteRetention(0, time.Hour))
+	}
+	s, err := queue.NewSQLiteStore(h.dbPath, opts...)
+	if err != nil {
+		return err
+	}
+	h.sql, h.st = s, s
+	return nil
+}
+
 func (h *pStoreHandle) close() {
 	if h.sql != nil {
 		_ = h.sql.Close()
